@@ -8,7 +8,8 @@
 EXTENDS TypedStream, TLCExt, Json, IOUtils
 CONSTANTS Depth, MinItems, Thin
 GenByteToks  == {<<>>, <<65>>, <<0, 255, 10>>, <<104, 101, 108, 108, 111>>}
-GenChunkSets == {<<1, 0>>, <<2, 3, -1>>, <<1, 4, 7, 0>>, <<5, -2>>}
+GenChunkSets == {<<1, 0>>, <<2, 3, -1>>, <<1, 4, 7, 0>>, <<5, -2>>, <<-3, -4>>, <<-5, 1, -6>>}
+GenLateW     == {a \in WActs : a.lim = -1 /\ a.tok # <<>> /\ a.tok[1] = 1 \/ a.t = "str" /\ a.lim = 3}
 
 Starts == {StartOf(items, i) - UOff : i \in hd..Len(items) + 1}
 GenRW  == {a \in RWActs : a.pos \in Starts \cup {1, ULen} /\ a.plen > 0 /\ a.tok[1] # 0}
@@ -19,6 +20,7 @@ GenNext ==
   \/ phase = "w" /\ Len(items) >= MinItems /\ \E a \in OpenActs : Step(a)
   \/ phase = "r" /\ \E a \in RdActs : Step(a)
   \/ phase = "r" /\ sync /\ hd = 3 /\ \E a \in {x \in GenRW : x.pos <= 4} : Step(a)
+  \/ phase = "r" /\ hd \in {2, 4} /\ Len(items) < MaxItems + 2 /\ \E a \in GenLateW : Step(a)
   \/ phase = "r" /\ ~AtEnd /\ \E a \in RdActs : \E r \in UReplies(a) : UStep(a, r)
   \/ phase = "r" /\ AtEnd /\ ~midrw /\ \E a \in OpenActs : Step(a)
   \/ phase = "end" /\ \E a \in RdActs : \E r \in UReplies(a) : ~r.b.ok /\ UStep(a, r)
